@@ -62,6 +62,8 @@ def check_static(fname, acc):
         acc.evaluations += 1
         acc.nontrivial.add(core.digest([fname, mapmodel.path(node) if node is not None else '', getattr(node, 'pos', getattr(node, 'seq', 0)), bucket.split(':')[0]]))
         acc.classes[bucket.split(':')[0]] += 1
+        if len(acc.samples) < 3 and acc.evaluations % 1499 == 7:
+            acc.samples.append({'file': fname, 'node': mapmodel.path(node) if node is not None else None, 'predicate': bucket.split(':')[0], 'holds': bool(ok), 'detail': detail})
         if not ok:
             acc.fail(bucket, {'file': fname, 'node': mapmodel.path(node) if node is not None else None, 'predicate': bucket.split(':')[0]}, detail)
 
@@ -167,6 +169,8 @@ def check_addressing(fname, m, acc):
                 acc.fail('refetch-getnodebypath:%s:%s' % (fname, kind), case, 'getnodebypath(%r): %s' % (p, core.exc_detail(e)))
         acc.evaluations += 1
         acc.classes['refetch-2:' + kind] += 1
+        if len(acc.samples) < 5 and acc.evaluations % 2999 == 11:
+            acc.samples.append({'file': fname, 'node': p, 'kind': kind, 'predicate': 'getnodebypath2(own path) is the node itself'})
         acc.nontrivial.add(core.digest([fname, p, getattr(n, 'pos', getattr(n, 'seq', 0)), 'r2', id(n) % 1000003]))
         try:
             got = m.getnodebypath2(p)
